@@ -133,6 +133,52 @@ Proof.
 Qed.
 End Labels.
 
+(** * [pop] of the output indices (the Viterbi variant) *)
+Lemma filter_filter {A} (p q : A -> bool) l : filter p (filter q l) = filter (fun x => q x && p x) l.
+Proof. induction l as [|x l IH]; [reflexivity|]. simpl. destruct (q x); simpl; [destruct (p x); rewrite IH; reflexivity|exact IH]. Qed.
+
+Lemma pop_each_filter output : forall (i2v : list (nat * axis)),
+  pop_each output i2v = filter (fun le => negb (existsb (Nat.eqb (fst le)) output)) i2v.
+Proof.
+  induction output as [|l out IH]; intros i2v.
+  - simpl. symmetry. clear. induction i2v as [|x l IH]; [reflexivity|]. simpl. rewrite IH. reflexivity.
+  - cbn [pop_each]. rewrite IH, filter_filter. apply filter_ext. intros le. cbn [existsb]. rewrite negb_orb. reflexivity.
+Qed.
+
+Lemma map_fst_filter {A B} (p : A -> bool) (l : list (A * B)) : map fst (filter (fun x => p (fst x)) l) = filter p (map fst l).
+Proof. induction l as [|x l IH]; [reflexivity|]. simpl. destruct (p (fst x)); simpl; rewrite IH; reflexivity. Qed.
+
+Lemma filter_dedup_nat out : forall L seen seen',
+  (forall x, existsb (Nat.eqb x) seen' = existsb (Nat.eqb x) out || existsb (Nat.eqb x) seen) ->
+  filter (fun x => negb (existsb (Nat.eqb x) out)) (dedup_nat seen L) = dedup_nat seen' L.
+Proof.
+  induction L as [|x L IH]; intros seen seen' Inv; [reflexivity|]. cbn [dedup_nat]. rewrite (Inv x).
+  destruct (existsb (Nat.eqb x) seen) eqn:Es.
+  - rewrite orb_true_r. apply IH. exact Inv.
+  - rewrite orb_false_r. cbn [filter]. destruct (existsb (Nat.eqb x) out) eqn:Eo; cbn [negb].
+    + apply IH. intros y. rewrite (Inv y). cbn [existsb]. destruct (Nat.eqb_spec y x) as [->|N]; [rewrite Eo; reflexivity|reflexivity].
+    + f_equal. apply IH. intros y. cbn [existsb]. rewrite (Inv y). destruct (Nat.eqb y x), (existsb (Nat.eqb y) out); reflexivity.
+Qed.
+
+Lemma map_fst_combine_gen {A B} (l : list A) (l' : list B) : length l = length l' -> map fst (combine l l') = l.
+Proof. revert l'. induction l as [|x l IH]; intros [|y l'] H; try discriminate; [reflexivity|]. simpl. f_equal. apply IH. simpl in H. lia. Qed.
+
+Lemma occ_labels {R : Type} (ts : list (ptensor R)) inputs :
+  Forall2 (fun t inp => length (vaxes t) = length inp) ts inputs -> map fst (occurrences ts inputs) = concat inputs.
+Proof.
+  induction 1 as [|t inp ts inputs Ft _ IH]; [reflexivity|]. unfold occurrences in *. cbn [combine flat_map fst snd concat].
+  rewrite map_app, IH, map_fst_combine_gen by (symmetry; exact Ft). reflexivity.
+Qed.
+
+(** [stride] of a typed axis answers within the fuel [einsum] gives it *)
+Lemma stride_total_sfuel G sigma e ps : wts G sigma -> ty G e ps -> exists o0 s0, stride (sfuel sigma [e]) sigma e = Ok (o0, s0).
+Proof.
+  intros W T. set (w := fold_right Nat.max 0 (map (fun j => tws (G j)) (fv e))).
+  apply (stride_total_w G sigma W w _ e ps T).
+  - intros j Hj. unfold w. clear -Hj. induction (fv e) as [|x l IH]; [contradiction|]. simpl. destruct Hj as [->|Hj]; [lia|]. specialize (IH Hj). lia.
+  - unfold sfuel. pose proof (budget_le_all G sigma w). simpl. lia.
+Qed.
+
 (** * booleans *)
 Lemma Forall2_forallb_combine {A B} (p : A * B -> bool) (l : list A) (l' : list B) :
   Forall2 (fun a b => p (a, b) = true) l l' -> forallb p (combine l l') = true.
